@@ -17,10 +17,11 @@ from ..e1 import Q, run_queries, replay as _replay
 PROPERTY = "C10"
 LEVEL = "model_checking"
 META = {
-    "engine": "E1 nir2smt; reset-rooted BMC against a reference sequencer + free-state one/two-frame clauses",
+    "engine": "E1 nir2smt; reset-rooted BMC against a reference sequencer (base case) + induction over transfers from "
+              "every reachable control state with free data registers + free-state one/two-frame clauses",
     "encoded": ["csr.wishbone.WishboneCSRBridge.__init__", "csr.wishbone.WishboneCSRBridge.elaborate",
                 "wishbone.bus.Signature", "csr.bus.Interface"],
-    "also": 'CSR address widths 12 and 16',
+    "also": 'CSR address widths 12 and 16; induction step: the transfer following ANY acknowledge (any reachable sequencer state, any data register contents, gap 0-2 cycles, longer gaps by an idle-collapse lemma) is exact',
     "bounds": "CSR data width 8/16/32/64 x ratio 1/2/4/8 (Wishbone data width <= 64), CSR address width "
               "log2(ratio)+0..3 (thorough: ..+5, up to 6); D = 2*(ratio+2)+2 frames from reset (thorough "
               "3*(ratio+2)+2): at least two (three) complete transfers incl. back-to-back, arbitrary idle gaps, "
@@ -125,6 +126,18 @@ def queries(h, cfg):
         a, b, _ = monitor(h, fr)
         return a, b
 
+    # ---- induction over the sequence of transfers: from ANY reachable control state (sequencer / acknowledge
+    # registers) with ANY contents of the data registers, in a cycle in which the bridge acknowledges, the NEXT
+    # transfer - starting 0, 1 or 2 cycles later - is exact.  With the reset-rooted window as the base case and the
+    # idle-collapse lemma (check()) for longer gaps, this covers histories of any length.
+    def after_ack(h, fr):
+        a, b, _ = monitor(h, fr[1:])
+        return [_member(h, fr[0]), is1(fr[0].sig(h.br.wb_bus.ack))] + a, b
+
+    def after_ack_twin(h, fr):
+        a, _, acks = monitor(h, fr[1:])
+        return [_member(h, fr[0]), is1(fr[0].sig(h.br.wb_bus.ack))] + a, z3.Or(*acks)
+
     def twin(h, fr):
         a, _, acks = monitor(h, fr)
         # two acknowledges inside the window, the second transfer starting right after the first ack
@@ -141,13 +154,48 @@ def queries(h, cfg):
         wb = h.br.wb_bus
         return [], z3.And(is1(fr[0].sig(wb.ack)), is1(fr[1].sig(wb.ack)))
     return [Q("transfers-exact-from-reset", D, build, init="reset", twin=twin),
+            Q("next-transfer-exact-after-any-acknowledge", ratio + 6, after_ack, twin=after_ack_twin, max_prefix=ratio + 3),
             Q("no-strobe-outside-transfer", 1, no_strobe_outside),
             Q("ack-single-cycle", 2, ack_one_cycle,
               twin=lambda h, fr: ([], is1(fr[1].sig(h.br.wb_bus.ack))))]
 
 
+def _reach(h):
+    if not hasattr(h, "_ctrl_reach"):
+        from ..reach import CtrlReach
+        from ..bmc import Stats
+        h._ctrl_reach = CtrlReach(h, Stats())
+    return h._ctrl_reach
+
+
+def _member(h, frame):
+    if getattr(frame, "state", None) is None:
+        return z3.BoolVal(True)          # simulator replay from reset: reachable by construction
+    return _reach(h).member(frame)
+
+
 def check(cfg, out, stats):
     run_queries(__import__(__name__, fromlist=["x"]), cfg, out, stats, cosim_cycles=24)
+    # idle-collapse lemma: after an acknowledge, request-free cycles reach a fixed point of the whole state within
+    # two cycles, so the gaps of 0..2 cycles in the induction window stand for every gap.  A failing lemma is not a
+    # violation of the property; it voids the generalisation (exit 2).
+    from ..bmc import unroll, solve, Inconclusive
+    h = maker(cfg)()
+    ts = h.translate()
+    wb = h.br.wb_bus
+    from ..reach import CtrlReach
+    h._ctrl_reach = CtrlReach(h, stats)          # (the same iteration as inside the queries, counted in the evidence here)
+    frames, cons = unroll(ts, 4, init="free", tag="L")
+    a = [_member(h, frames[0]), is1(frames[0].sig(wb.ack))]
+    for f in frames[1:3]:
+        a.append(z3.Not(z3.And(is1(f.sig(wb.cyc)), is1(f.sig(wb.stb)))))
+    s2, s3 = frames[2].state, frames[3].state
+    diff = [s2[k] != s3[k] for k in s2]
+    if diff:
+        r, _ = solve(cons + a + [z3.Or(*diff)], stats, "lemma-idle-collapse-after-ack", want_model=False)
+        if r != "unsat":
+            raise Inconclusive("idle-collapse lemma fails: gaps of 0..2 cycles between transfers do not stand for all gaps")
+    out.extra = dict(getattr(out, "extra", None) or {}, reachable_control_states=len(_reach(h).states))
 
 
 def replay(v):
